@@ -135,11 +135,20 @@ impl CompressedChunk {
     }
     /// Decompress the chunk.
     pub fn decompress(self) -> Result<Chunk, CompressionError> {
-        Ok(match self.compression {
+        let source_size = self.source_size;
+        let chunk = match self.compression {
             Some(compression) => Chunk::from(compression.decompress(self.data, self.source_size)?),
             // Chunk not compressed.
             None => Chunk::from(self.data),
-        })
+        };
+        // The size declared for the chunk is what its place in the source was laid out with.
+        if chunk.len() != source_size {
+            return Err(CompressionError::Io(std::io::Error::new(
+                std::io::ErrorKind::InvalidData,
+                "chunk size differs from its declared size",
+            )));
+        }
+        Ok(chunk)
     }
     /// Compression used for chunk.
     #[inline]
